@@ -1,16 +1,18 @@
 #!/bin/sh
-# seed_sweep.sh [jobs] — re-run every kept seed (seeded/<id>/patch-ported.diff if present, else patch.diff) against a snapshot of
+# seed_sweep.sh [jobs] [regex on seed names] — re-run every kept seed (seeded/<id>/patch-ported.diff if present, else patch.diff) against a snapshot of
 # /verif and /repo's HEAD, `jobs` at a time; one line per seed in /verif/sweep_results.txt.  Development aid, not a registered check.
 jobs=${1:-4}
+filter=${2:-.}
+out=${SWEEP_OUT:-/verif/sweep_results.txt}
 snap=/root/verif-snap-$$
 rm -rf "$snap"; mkdir -p "$snap"
 rsync -a --exclude .git --exclude evidence --exclude replays /verif/ "$snap"/
-: > /verif/sweep_results.txt
-ls -d /verif/seeded/*/ | grep -v _hunt | while read d; do
+: > "$out"
+ls -d /verif/seeded/*/ | grep -v _hunt | grep -E "$filter" | while read d; do
   id=$(basename "$d")
   patch="$d/patch-ported.diff"; [ -f "$patch" ] || patch="$d/patch.diff"
   prop=$(python3 -c "import json,sys; print(json.load(open('$d/meta.json')).get('breaks_property','').split()[0].strip(','))" 2>/dev/null)
   [ -n "$prop" ] && echo "$id $patch $prop"
-done | xargs -P "$jobs" -L 1 sh -c 'r=$(VERIF_SRC='"$snap"' /verif/tools/try_seed_wt.sh "$1" "$2" 2>&1 | grep -E "^===|does not apply" | head -1); echo "$0 $2 :: $r" >> /verif/sweep_results.txt'
+done | xargs -P "$jobs" -L 1 sh -c 'r=$(VERIF_SRC='"$snap"' /verif/tools/try_seed_wt.sh "$1" "$2" 2>&1 | grep -E "^===|does not apply" | head -1); echo "$0 $2 :: $r" >> '"$out"
 rm -rf "$snap"
-echo sweep-done >> /verif/sweep_results.txt
+echo sweep-done >> "$out"
